@@ -468,9 +468,17 @@ impl<T: Sync + Send + 'static> Nucleo<T> {
                 let finished = !inner.was_canceled;
                 drop(inner);
                 atomic::fence(Ordering::SeqCst);
+                #[cfg(feature = "verif-hooks")]
+                let mut notified = false;
                 if finished && should_notify.swap(false, Ordering::SeqCst) {
+                    #[cfg(feature = "verif-hooks")]
+                    {
+                        notified = true;
+                    }
                     notify()
                 }
+                #[cfg(feature = "verif-hooks")]
+                point(site::RUN_JOB_DONE, notified as u64);
             })
         }
         #[cfg(feature = "verif-hooks")]
